@@ -20,8 +20,9 @@ pp.optim.functional.modjac / the RobustModel on the same parameters (their corre
     must have moved by its slice: addition for Euclidean / algebra, expm(hat(d[:k])) @ X in the matrix
     representation (mpmath) for groups; frozen parameters must be bit-identical and the trainable ones must
     have moved by the solution of the system restricted to them.
-Recorded finding (replayed on every run): any parameter with requires_grad=False makes GN.step / LM.step
-raise in update_parameter (split over the trainable sizes of a step that has an entry per parameter)."""
+Frozen parameters (repaired in /repo a845d9f: before, any parameter with requires_grad=False made GN.step /
+LM.step raise in update_parameter): the witnesses of that defect are directed regression cases, both parameter
+orders and both optimizers; a recurrence is a VIOLATION (tie: raise-disagreement; oracle: frozen-raises)."""
 import io, contextlib, math, random, json
 from ..common import *
 from .. import lie
@@ -33,7 +34,6 @@ RULE = ('case = (optimizer GN|LM, 1-3 parameters of kinds Euclid / algebra so3,s
         'Adaptive, TrustRegion) with damping 2^-30..2^10, min/max clamps active / inactive, vectorize on/off, target on/off); directed block first, '
         'then random; one evaluation per trial of a call; non-trivial = a trial with a non-zero step; distinct by full spec')
 
-KEY_FROZEN = 'update_parameter:frozen-parameter:split-raises'
 ALG = ['so3', 'se3', 'rxso3', 'sim3']
 GRP = ['SO3', 'SE3', 'RxSO3', 'Sim3']
 ADIM = [3, 6, 4, 7]
@@ -345,6 +345,8 @@ def exp_entries(pp, torch, spec, D, sign):
     off = 0
     for p in spec['params']:
         n = len(p['data'])
+        if not p['req']:
+            continue                      # frozen parameters have no slice of the step
         if p['kind'] == 'G':
             w, k = pw(p), ADIM[p['g']]
             for t in range(n // w):
@@ -604,10 +606,11 @@ def oracle(pp, torch, spec, rec=None):
 
 
 def viol_key(spec, why):
-    head = why.split(':')[0]
-    if head == 'frozen-raises':
-        return KEY_FROZEN
-    return '%s.step:%s' % (spec['opt'], ':'.join(why.split(':')[:2]).split(' ')[0])
+    parts = why.split(':')
+    head = parts[0].strip()
+    if head in ('system', 'solve', 'update') and len(parts) > 1:
+        head += ':' + parts[1].strip().split(' ')[0]
+    return '%s.step:%s' % (spec['opt'], head)
 
 
 # =============================================================================================
@@ -861,8 +864,9 @@ def wexp_oracle(pp, torch, rshape, wshape, wdata):
 # =============================================================================================
 #  run / replay
 # =============================================================================================
-FINDING_SPECS = [
-    # r = (a, c) -> residual with c frozen, for both parameter orders and both optimizers
+REGRESSION_SPECS = [
+    # witnesses of the repaired frozen-parameter defect (a845d9f): residual linear in (a, c) with c frozen,
+    # both parameter orders and both optimizers
     dict(kind='step', opt=o, exact=True, cseed=7, vectorize=False, target=False, single_out=True,
          params=[dict(kind='E', g=0, shape=[2], data=[1.0, 2.0], req=(order == 0), feat='raw'),
                  dict(kind='E', g=0, shape=[1], data=[3.0], req=(order == 1), feat='raw')],
@@ -968,12 +972,6 @@ def run(ctx):
     import torch
     ctx.rule = RULE
     rng = ctx.rng
-    # ---------------------------------------------------------------- recorded finding: replayed on every run
-    for spec in FINDING_SPECS:
-        why = oracle(pp, torch, spec)
-        ctx.case(('finding', spec['opt'], spec['params'][0]['req']), branch='finding-replay')
-        if why:
-            ctx.violation(viol_key(spec, why), why, spec)
     # ---------------------------------------------------------------- weight expansion on every documented shape
     wmetas, wlits = [], []
     for rshape, wshape in wexp_cases(rng, ctx.scale(120, 1200)):
@@ -999,14 +997,24 @@ def run(ctx):
         for i in parse_nat_list(ev[0]):
             ctx.mismatch('weight-expansion', wmetas[i])
     # ---------------------------------------------------------------- steps: directed, frozen, random
-    specs = directed_specs(rng, ctx.thorough)
-    # frozen parameters: both orders, all kinds (the model raises like the implementation)
+    specs = [json.loads(json.dumps(sp)) for sp in REGRESSION_SPECS] + directed_specs(rng, ctx.thorough)
+    # frozen parameters: every position, all kinds, exact and real
     for opt in ('GN', 'LM'):
         for ks in (['E', 'E'], ['G', 'E'], ['E', 'A', 'G']):
             for fr in range(len(ks)):
-                s = gen_spec(rng, opt=opt, exact=True, kinds=ks, smode='real')
-                s['params'][fr]['req'] = False
-                specs.append(s)
+                for ex in (True, False):
+                    s = gen_spec(rng, opt=opt, exact=ex, kinds=ks, smode=rng.choice(['real', 'script']) if ex else 'real')
+                    s['params'][fr]['req'] = False
+                    if s.get('script') is not None:      # one entry per trainable parameter element
+                        nt = sum(len(p['data']) for p in s['params'] if p['req'])
+                        s['script'] = [d[:nt] for d in s['script']]
+                    specs.append(s)
+    # random frozen flags
+    for _ in range(ctx.scale(10, 200)):
+        s = gen_spec(rng, smode='real')
+        if len(s['params']) > 1:
+            s['params'][rng.randrange(len(s['params']))]['req'] = False
+        specs.append(s)
     for _ in range(ctx.scale(70, 1500)):
         specs.append(gen_spec(rng))
     run_specs(ctx, pp, torch, specs, 'step')
